@@ -426,7 +426,7 @@ class Editor:
         if "SIUnit" in inv.unit_declared and rng.random() < 0.5:
             attrs["SIUnit"] = True
         if "conversionFactor" in inv.unit_declared and rng.random() < 0.7:
-            attrs["conversionFactor"] = rng.choice(["1.0", "10^3", "0.001", "2.54e-2", "60", "10^-6"])
+            attrs["conversionFactor"] = rng.choice(["1.0", "1000.0", "0.001", "2.54e-2", "60", "10e-6"])
         if "unitPrefix" in inv.unit_declared and rng.random() < 0.15:
             attrs["unitPrefix"] = True
         return attrs
@@ -501,7 +501,7 @@ class Editor:
         name = gen_name(rng, inv, self.taken_other, "unit")
         attrs = {rng.choice(["SIUnitModifier", "SIUnitSymbolModifier"]): True}
         if "conversionFactor" in inv.mod_declared:
-            attrs["conversionFactor"] = rng.choice(["10^2", "10^-7", "1e5", "0.5"])
+            attrs["conversionFactor"] = rng.choice(["100.0", "10e-7", "1e5", "0.5"])
         desc = self._desc()
         _new(cont, "unitModifierDefinition", name, desc, dict(attrs, **self.lib_attr))
         self.specs.append({"kind": "unitModifiers", "name": name, "attrs": self._expect_attrs(attrs), "desc": desc})
